@@ -76,6 +76,7 @@ PROPS = {
         "explanation": "Narrow claim on the dual representation of strings. Decided by Verus contracts on real text: FencedString::{len, substr, substring} (src/util/fenced_string.rs) against the representation invariant (an empty offset table means pure ASCII text, a non-empty one has one entry per code point, entry i being the byte offset of code point i): `len` is the number of code points, `substr` / `substring` of (start, end) with start <= len denote exactly the code points [start, min(end, len)) whichever representation the string has, and `substring` returns a well-formed string; the natives get / find / rfind / substring (src/builtin/str.rs) turn every out-of-range request into an error value before they reach those functions, and find / rfind answer code-point positions. UTF-8 itself is abstracted by uninterpreted functions (number of code points, byte offset of a code point) with the boundary facts the code relies on as axioms; `String` / `Vec` / `str` are model types of the same names. NOT decided: construction of the table (from_string: char_indices), push / push_ascii, case mapping, the literal grammar and escapes, formatted strings, and every string function written in the xray language (split, replace, strip, partition, ...).",
         "units": [
             {"kind": "verus", "unit": "fstr"},
+            {"kind": "verus", "unit": "strnat"},
         ],
         "unreached": [
             "FencedString::{from_string, push, push_ascii, to_lowercase, to_uppercase}: construction and maintenance of the offset table (char_indices, iterator towers, std case mapping)",
